@@ -2,4 +2,4 @@
 # tools/try_seed.sh <worktree-with-change-applied> <prop> [tier]  : run a check against a changed copy of the repo
 wt=$1; prop=$2; tier=${3:-quick}
 cd /verif
-PYTTB_REPO=$wt PYTHONPATH=$wt ./check $prop --tier $tier 2>&1 | grep -E "VIOLATION|KNOWN|^\[C|INTERNAL" | cut -c1-400
+VERIF_EVIDENCE_DIR=/tmp/seed_evidence PYTTB_REPO=$wt PYTHONPATH=$wt ./check $prop --tier $tier 2>&1 | grep -E "VIOLATION|KNOWN|^\[C|INTERNAL" | cut -c1-400
